@@ -648,9 +648,15 @@ func runC01(seed int64, n int, tier string) *Result {
 			"response stream (inbound hook; equal to what Receive() yields); non-trivial = at least two accepted writes and one response; distinct by step list",
 		Hist: map[string]int{},
 	}
+	fails := 0
 	for i := 0; i < n; i++ {
 		g, in, fail, nt, known := history01(r, res.Hist)
 		res.Cases = append(res.Cases, Case{Gallina: g, Input: in, Nontrivial: nt, Key: fmt.Sprint(in), OracleFail: fail, Known: known})
+		if fail != "" && known == "" {
+			if fails++; fails >= 5 {
+				break // the failing inputs are recorded; waiting out the deadlines of hundreds more adds nothing
+			}
+		}
 	}
 	return res
 }
